@@ -5,11 +5,37 @@ from .. import xengine
 
 def _proc(args):
     tool, argv, seed, hs = args[:4]
-    cwd = args[4] if len(args) > 4 else '/tmp'
+    cwd = (args[4] if len(args) > 4 else None) or '/tmp'
+    clock = args[5] if len(args) > 5 else None
     import subprocess, os
     from ..core import REPO
     env = dict(os.environ, PYTHONHASHSEED=str(hs), PYTHONPATH=REPO, PYTHONWARNINGS='ignore')
-    code = ("import sys,importlib;importlib.import_module('cnfgen.clitools.%s');"
+    pre = ''
+    if clock is not None:
+        # the child's clock is replaced BEFORE cnfgen is imported: datetime.date/datetime classes and the time functions
+        pre = ("import datetime as _d, time as _t\n"
+               "_NOW = _d.datetime(%d, %d, %d, %d, 30, 0)\n"
+               "class _Date(_d.date):\n"
+               "    @classmethod\n"
+               "    def today(cls): return cls(_NOW.year, _NOW.month, _NOW.day)\n"
+               "class _DT(_d.datetime):\n"
+               "    @classmethod\n"
+               "    def now(cls, tz=None): return cls(_NOW.year, _NOW.month, _NOW.day, _NOW.hour, 30, 0)\n"
+               "    @classmethod\n"
+               "    def utcnow(cls): return cls.now()\n"
+               "    @classmethod\n"
+               "    def today(cls): return cls.now()\n"
+               "_d.date = _Date; _d.datetime = _DT\n"
+               "_E = (_NOW - _d.datetime.__mro__[1](1970, 1, 1)).total_seconds()\n"
+               "_t.time = lambda: _E\n"
+               "_t.time_ns = lambda: int(_E * 10**9)\n"
+               "_st = _NOW.timetuple()\n"
+               "_t.localtime = lambda *a: _st\n"
+               "_t.gmtime = lambda *a: _st\n"
+               "_t.strftime = (lambda f, t=None, _o=_t.strftime: _o(f, _st if t is None else t))\n"
+               "_t.ctime = lambda *a: _NOW.ctime()\n"
+               "_t.asctime = lambda *a: _NOW.ctime()\n" % clock)
+    code = pre + ("import sys,importlib;importlib.import_module('cnfgen.clitools.%s');"
             "sys.argv=%r;sys.modules['cnfgen.clitools.%s'].main()" % (tool, [tool] + ([] if tool == 'kthlist2pebbling' else ['--seed', str(seed)]) + [str(a) for a in argv], tool))
     for budget in (300, 1200):                 # a loaded machine must not turn into a verdict: one generous retry
         try:
@@ -37,6 +63,23 @@ def process_sweep(part, commands):
         if len(outs) != 1:
             part.case('c07.proc', 'hashseed_dependence', {'tool': t, 'argv': [str(a) for a in argv]},
                       'output of `%s --seed 1 %s` differs between processes with different PYTHONHASHSEED' % (t, ' '.join(str(a) for a in argv)))
+
+
+def clock_sweep(part, commands):
+    """Auxiliary, NOT solver-based: the same command line in fresh processes whose clock (datetime.date/datetime, time.*) is
+    set to 31 Dec 2030 23:30 and to 1 Jan 2031 15:30; the outputs must be identical."""
+    import multiprocessing
+    clocks = [(2030, 12, 31, 23), (2031, 1, 1, 15)]
+    jobs = [(t, argv, 1, 0, None, ck) for (t, argv) in commands for ck in clocks]
+    with multiprocessing.get_context('fork').Pool(16) as pool:
+        res = pool.map(_proc, jobs)
+    for i, (t, argv) in enumerate(commands):
+        part.counts['clock_sweep_commands'] += 1
+        if 'timeout' in (res[2 * i][0], res[2 * i + 1][0]):
+            part.errors.append('clock sweep: `%s %s` did not finish' % (t, ' '.join(str(a) for a in argv)))
+        elif res[2 * i] != res[2 * i + 1] or res[2 * i][0] != 0:
+            part.case('c07.proc', 'clock_dependence', {'tool': t, 'argv': [str(a) for a in argv]},
+                      'output of `%s --seed 1 %s` differs between two processes whose clocks show different dates (or the run failed)' % (t, ' '.join(str(a) for a in argv)))
 
 
 def cwd_sweep(part, commands):
@@ -68,6 +111,12 @@ def cwd_sweep(part, commands):
 
 
 def replay(case):
+    if case['harness'] == 'c07.proc' and case['kind'] == 'clock_dependence':
+        from ..core import Part
+        p = case['input']
+        tmp = Part()
+        clock_sweep(tmp, [(p['tool'], p['argv'])])
+        return bool(tmp.cases), 'outputs under two clock settings differ: %s' % bool(tmp.cases)
     if case['harness'] == 'c07.proc' and case['kind'] == 'cwd_dependence':
         from ..core import Part
         p = case['input']
@@ -109,6 +158,7 @@ def run(tier):
     conds = [xengine.Cond('c07', 'h_e_cmd_%d' % i, T, symbolic=True, note='%s %s' % (t, ' '.join(str(a) for a in argv)))
              for i, (t, argv) in enumerate(H.COMMANDS)]
     conds.append(xengine.Cond('c07', 'h_e_lib', T, symbolic=True))
+    conds.append(xengine.Cond('c07', 'h_e_seed_spelling', T, symbolic=True, note='6 command lines with random graph arguments x 8 spellings / repetitions of the seed option'))
     conds.append(xengine.Cond('c07', 'h_e_lib_headers', T, symbolic=True, note='24 library calls with non-default options, twice on equal but distinct objects'))
     conds.append(xengine.Cond('c07', 'h_e_lib_stream', T, symbolic=False, note='seeded draws from five deterministic non-MT streams; dense requests'))
     part = xengine.run_conditions('c07.x', conds)
@@ -120,5 +170,6 @@ def run(tier):
     p2 = Part()
     process_sweep(p2, H.COMMANDS + H.NAMED_COMMANDS)
     cwd_sweep(p2, H.NAMED_COMMANDS + H.FILE_COMMANDS)
+    clock_sweep(p2, H.COMMANDS[::4] + H.FILE_COMMANDS)
     run.add(p2, {'harness': 'c07.proc', 'engine': 'plain process sweep over PYTHONHASHSEED (auxiliary, not solver-decided)'})
     return run.finish()
